@@ -13,7 +13,15 @@ tie    : * translator (every run)
            gen_C06.py, theorems kernel_calls_clean, ctor_aliases_unedited) validated by watching
            every compiled kernel for the whole run (harness/c06_wide.py: KernelWatch) and
            compared with the compiled model (driver requests kclean / kwritten / ctorclean)
-search : for every class spec (shared with C01): snapshot (deep copy) every cached value,
+         * round 4: named link-attribute slots written inside value-returning methods
+           (translate/attrs_C06.py -> attrTables, theorems attr_queries_pure / attr_tables_ok): the
+           compiled slot model predicts, per query chain on fresh twins of real objects, which
+           answers differ from a fresh object and which generating expression each attribute left
+           behind holds (harness/c06_attr.py)
+search : round 4: every public value-returning method is a query, whatever it writes (the measures
+         that store a link attribute included); all queries in opposite orders on two fresh twins;
+         integer link lengths; obligation listing the value-returning methods never queried.
+         For every class spec (shared with C01): snapshot (deep copy) every cached value,
          every array field and every caller-supplied input, run one query, re-query
          everything: any change is an interference; constructors of derived objects on a
          shared ClimateData / on caller arrays; public functions taking arrays; every public
